@@ -259,12 +259,12 @@ func GenHistory(t *rapid.T, b Bias) History {
 		table = append(table, wop{"flush", 1}, wop{"mmap", 1})
 	}
 	if !b.HeadOnly && !b.NoDeletes {
-		table = append(table, wop{"boundarydelete", 1 + b.Deletes/4})
+		table = append(table, wop{"boundarydelete", 1 + b.Deletes/4}, wop{"straddledelete", 1 + b.Deletes/4})
 	}
 	if b.Simple {
 		table = []wop{{"open", 4}, {"add", 40}, {"commit", 10}, {"rollback", 1}, {"compact", 4}, {"flush", 2}, {"mmap", 2}}
 		if !b.NoDeletes {
-			table = append(table, wop{"delete", 3 + b.Deletes}, wop{"cleantomb", 1}, wop{"compactooo", 1})
+			table = append(table, wop{"delete", 3 + b.Deletes}, wop{"cleantomb", 1}, wop{"compactooo", 1}, wop{"straddledelete", 2})
 		}
 	}
 	if b.Churn > 0 && !b.HeadOnly {
@@ -410,6 +410,12 @@ func GenHistory(t *rapid.T, b Bias) History {
 					}
 				}
 				bounds = append(bounds, rangeEnd(g.now, g.cfg.ChunkRange)-g.cfg.ChunkRange, g.now)
+				if min, ok := g.headMinInOrder(); ok {
+					// where the next head compaction will cut: a deletion straddling it must survive
+					// being split between the new block and the head
+					cut := rangeEnd(min, g.cfg.ChunkRange)
+					bounds = append(bounds, cut, cut)
+				}
 				b0 := rapid.SampledFrom(bounds).Draw(t, "dbound")
 				if rapid.Bool().Draw(t, "dends") {
 					maxt = b0 + int64(rapid.IntRange(-1, 1).Draw(t, "dedge"))
@@ -525,6 +531,60 @@ func GenHistory(t *rapid.T, b Bias) History {
 			g.established, g.creator = map[int]bool{}, map[int]int{}
 			g.m.Restarted(false, math.MinInt64, g.m.Head.MinValid)
 			g.ops = append(g.ops, Op{K: "reopen"})
+		case "straddledelete":
+			// aimed scenario: a deletion that straddles the point where the next head compaction cuts,
+			// with a deleted sample above the cut; then the compaction (and, outside the crash check,
+			// a restart): the part of the deletion above the new block has to survive
+			min, ok := g.headMinInOrder()
+			if !ok || !g.m.Head.Init {
+				continue
+			}
+			cut := rangeEnd(min, g.cfg.ChunkRange)
+			g.closeAll(t)
+			s := rapid.IntRange(0, cfg.NSeries-1).Draw(t, "sdseries")
+			ser := g.m.Series[s]
+			t2 := cut + int64(rapid.SampledFrom([]int{0, 0, 1, 37}).Draw(t, "sdabove"))
+			if ser.HasLast && ser.LastT >= t2 {
+				t2 = ser.LastT + 1
+			}
+			if t2 < g.m.Head.MinValid {
+				t2 = g.m.Head.MinValid
+			}
+			t3 := t2 + 1
+			if far := min + g.cfg.ChunkRange/2*3 + 1; far > t3 {
+				t3 = far
+			}
+			if t3 > g.base+12000 {
+				continue
+			}
+			a := g.m.NewAppender(false)
+			g.apps[0] = a
+			g.ops = append(g.ops, Op{K: "open", A: 0})
+			if !g.established[s] {
+				g.creator[s] = 0
+			}
+			for i, ts := range []int64{t2, t3} {
+				v := tm.Val{Kind: tm.KFloat, F: math.Float64bits(float64(71 + i))}
+				g.m.Append(a, s, ts, v, false)
+				g.lastV[s] = v
+				g.ops = append(g.ops, Op{K: "add", A: 0, S: s, T: ts, V: v})
+			}
+			if t3 > g.now {
+				g.now = t3
+			}
+			g.emitClose("commit", 0)
+			mint := cut - int64(rapid.SampledFrom([]int{1, 50, 400}).Draw(t, "sdback"))
+			maxt := t2 + int64(rapid.SampledFrom([]int{0, 5, 100}).Draw(t, "sdfwd"))
+			g.deleted[s] = append(g.deleted[s], [2]int64{mint, maxt})
+			g.m.Delete([]int{s}, mint, maxt)
+			g.ops = append(g.ops, Op{K: "delete", Mint: mint, Maxt: maxt, Sel: []int{s}})
+			g.established, g.creator = map[int]bool{}, map[int]int{}
+			g.simulateCompact()
+			g.ops = append(g.ops, Op{K: "compact"})
+			if !b.Simple {
+				g.m.Restarted(false, math.MinInt64, g.m.Head.MinValid)
+				g.ops = append(g.ops, Op{K: "reopen"})
+			}
 		case "compact":
 			g.closeAll(t)
 			g.established, g.creator = map[int]bool{}, map[int]int{}
